@@ -759,3 +759,227 @@ pub fn exhaustive_c17(t: Tier, s: u64) -> crate::infra::CustomOut {
 pub fn exhaustive_c18(t: Tier, s: u64) -> crate::infra::CustomOut {
     exhaustive_stage(SF::C18, t, s)
 }
+
+// ---------------------------------------------------------------------------------------
+// Layer-1 scheduled part: the core engines over harness-owned storage
+// ---------------------------------------------------------------------------------------
+
+#[derive(Clone, Debug, Hash, PartialEq, Serialize, Deserialize)]
+pub enum COp {
+    Get { k: u8 },
+    Put { k: u8 },
+    Clear,
+}
+
+#[derive(Clone, Debug, Hash, PartialEq, Serialize, Deserialize)]
+pub struct CoreSchedCase {
+    pub is_async: bool,
+    pub policy: u8,
+    pub limit: usize,
+    pub ttl: Option<u64>,
+    pub prefix: Vec<u8>,
+    pub age_ns: i64,
+    pub threads: Vec<Vec<COp>>,
+    pub decisions: Vec<u8>,
+}
+
+pub fn decode_core(bytes: &[u8], tier: Tier) -> CoreSchedCase {
+    let mut d = Dec::new(bytes);
+    let is_async = d.chance(1, 2);
+    let policy = d.choose(6) as u8;
+    let limit = 1 + d.choose(3);
+    let ttl = if d.chance(1, 3) { Some(1 + d.choose(2) as u64) } else { None };
+    let n_prefix = d.choose(limit + 2);
+    let prefix: Vec<u8> = (0..n_prefix).map(|_| d.choose(4) as u8).collect();
+    let age_ns = match (ttl, d.choose(3)) {
+        (Some(t), 1) | (Some(t), 2) => t as i64 * crate::model::SEC,
+        _ => 0,
+    };
+    let nt = if tier == Tier::Thorough && d.chance(1, 3) { 3 } else { 2 };
+    let mut threads = Vec::new();
+    for _ in 0..nt {
+        let n = 1 + d.choose(4);
+        let ops = (0..n)
+            .map(|_| match d.weighted(&[4, 7, if is_async { 0 } else { 3 }]) {
+                0 => COp::Get { k: d.choose(5) as u8 },
+                1 => COp::Put { k: d.choose(5) as u8 },
+                _ => COp::Clear,
+            })
+            .collect();
+        threads.push(ops);
+    }
+    CoreSchedCase { is_async, policy, limit, ttl, prefix, age_ns, threads, decisions: d.rest().to_vec() }
+}
+
+pub fn desc_core(bytes: &[u8], tier: Tier) -> Value {
+    let c = decode_core(bytes, tier);
+    let mut v = serde_json::to_value(&c).unwrap_or(Value::Null);
+    v["engine"] = json!(if c.is_async { "AsyncGlobalCache<String>" } else { "GlobalCache<String>" });
+    v["policy_name"] = json!(Policy::ALL[c.policy as usize % 6].name());
+    v["decisions"] = json!(c.decisions.iter().map(|b| format!("{:02x}", b)).collect::<String>());
+    v
+}
+
+fn core_value(k: u8, ver: u32) -> String {
+    format!("core-k{}-v{}", k, ver)
+}
+
+pub fn run_core(bytes: &[u8], focus: SF, tier: Tier) -> CaseOut {
+    use crate::core_l1::{to_eviction, AsyncStore};
+    use crate::vals::Stores;
+    use cachelito_core::{AsyncGlobalCache, GlobalCache};
+    let case = decode_core(bytes, tier);
+    let mut out = CaseOut { key: hash_of(&case), ..CaseOut::default() };
+    vrt::clock::freeze(0);
+    crate::infra::install_panic_hook_once();
+    let pol = Policy::ALL[case.policy as usize % 6];
+    let (limit, ttl) = (Some(case.limit), case.ttl);
+    // force the storage Lazies
+    <String as Stores>::gmap().write().clear();
+    <String as Stores>::gorder().lock().clear();
+    <String as Stores>::gstats().reset();
+    let astore: &'static AsyncStore<String> = Box::leak(Box::new(AsyncStore::new()));
+    let is_async = case.is_async;
+    let mk_g = move || GlobalCache::<String>::new(<String as Stores>::gmap(), <String as Stores>::gorder(), limit, None, to_eviction(pol), ttl, None, <String as Stores>::gstats());
+    let mk_a = move || AsyncGlobalCache::<String>::new(&astore.map, &astore.order, limit, None, to_eviction(pol), ttl, None, &astore.stats);
+    let key = |k: u8| crate::core_l1::l1_key(k);
+    let mut ver = 0u32;
+    fastrand::seed(out.key | 1);
+    for k in &case.prefix {
+        ver += 1;
+        if is_async {
+            mk_a().insert(&key(*k), core_value(*k, ver));
+        } else {
+            mk_g().insert(&key(*k), core_value(*k, ver));
+        }
+    }
+    if case.age_ns > 0 {
+        vrt::clock::advance_ns(case.age_ns);
+    }
+    let bad: Arc<Mutex<Option<(usize, usize, String)>>> = Arc::new(Mutex::new(None));
+    let recs: Arc<Mutex<Vec<(usize, u64, u64, bool)>>> = Arc::new(Mutex::new(Vec::new()));
+    let mut bodies: Vec<vsched::Body> = Vec::new();
+    for (t, ops) in case.threads.iter().enumerate() {
+        let ops = ops.clone();
+        let bad = bad.clone();
+        let recs = recs.clone();
+        let seed = out.key ^ ((t as u64 + 1) << 40);
+        bodies.push(Box::new(move || {
+            fastrand::seed(seed | 1);
+            for (i, op) in ops.iter().enumerate() {
+                let start = vsched::now();
+                match op {
+                    COp::Get { k } => {
+                        let got = if is_async { mk_a().get(&key(*k)) } else { mk_g().get(&key(*k)) };
+                        if let Some(v) = got {
+                            if !v.starts_with(&format!("core-k{}-v", k)) {
+                                *bad.lock().unwrap() = Some((t, i, v));
+                            }
+                        }
+                    }
+                    COp::Put { k } => {
+                        let v = core_value(*k, 1000 + t as u32 * 100 + i as u32);
+                        if is_async {
+                            mk_a().insert(&key(*k), v)
+                        } else {
+                            mk_g().insert(&key(*k), v)
+                        }
+                    }
+                    COp::Clear => {
+                        if !is_async {
+                            mk_g().clear()
+                        }
+                    }
+                }
+                recs.lock().unwrap().push((t, start, vsched::now(), matches!(op, COp::Clear)));
+            }
+        }));
+    }
+    let rep = vsched::run(bodies, &case.decisions, vsched::Opts { step_limit: 100_000, trace: false, explicit: false, cycle: true, excl_only: None });
+    let fl = if is_async { "async-core" } else { "sync-core" };
+    out.classes.push(if is_async { "flavour_async" } else { "flavour_global" });
+    if rep.preemptions_holding > 0 {
+        out.classes.push("preempted_while_holding_lock");
+    }
+    let recs = recs.lock().unwrap().clone();
+    let clear_overlaps = recs.iter().any(|a| a.3 && recs.iter().any(|b| b.0 != a.0 && !b.3 && a.1 <= b.2 && b.1 <= a.2));
+    if clear_overlaps {
+        out.classes.push("clear_overlaps_other_op");
+    }
+    match &rep.outcome {
+        vsched::Outcome::Deadlock(w) => {
+            if focus == SF::C17 {
+                out.violation = Some(Violation { signature: format!("C17:{}:deadlock", fl), clause: "deadlock".into(), step: rep.steps as usize, expected: "every thread returns".into(), observed: format!("no runnable thread: waiting {:?}; lock-order edges {:?}", w, rep.lock_order_edges) });
+            } else {
+                out.aborted_foreign = true;
+            }
+            vrt::clock::unfreeze();
+            return out;
+        }
+        vsched::Outcome::StepLimit => {
+            out.aborted_foreign = true;
+            vrt::clock::unfreeze();
+            return out;
+        }
+        _ => {}
+    }
+    if rep.panics.iter().any(|p| p.is_some()) {
+        out.aborted_foreign = true;
+        vrt::clock::unfreeze();
+        return out;
+    }
+    out.nontrivial = rep.preemptions_holding > 0 || clear_overlaps;
+    if focus == SF::C18 {
+        let snapshot = || -> (BTreeSet<String>, Vec<String>) {
+            if is_async {
+                (astore.map.iter().map(|r| r.key().clone()).collect(), astore.order.lock().iter().cloned().collect())
+            } else {
+                (<String as Stores>::gmap().read().keys().cloned().collect(), <String as Stores>::gorder().lock().iter().cloned().collect())
+            }
+        };
+        let viol = |clause: &str, exp: String, obs: String| Violation { signature: format!("C18:{}:{}:{}", fl, pol.name(), clause), clause: clause.to_string(), step: 0, expected: exp, observed: obs };
+        if let Some((t, i, v)) = bad.lock().unwrap().clone() {
+            out.violation = Some(viol("value-in-thread", format!("thread {} op {}: a value stored for that key", t, i), v));
+        }
+        let (stored, queue) = snapshot();
+        if out.violation.is_none() && stored.len() > case.limit {
+            out.violation = Some(viol("bound-at-quiescence", format!("at most {} entries", case.limit), format!("{:?}", stored)));
+        }
+        let untracked: Vec<&String> = stored.iter().filter(|k| !queue.contains(k)).collect();
+        if out.violation.is_none() && !untracked.is_empty() {
+            out.violation = Some(viol("stored-untracked", "every stored key is in the eviction queue (queue keys missing from the store are tolerated)".into(), format!("stored {:?}, queue {:?}", stored, queue)));
+        }
+        // probe: fresh stores keep the bound; FIFO / LRU flush every older entry
+        if out.violation.is_none() {
+            for j in 0..(case.limit + 1) {
+                let k = 5 + j as u8;
+                if is_async {
+                    mk_a().insert(&key(k), core_value(k, 9000))
+                } else {
+                    mk_g().insert(&key(k), core_value(k, 9000))
+                }
+                let (s2, _) = snapshot();
+                if s2.len() > case.limit {
+                    out.violation = Some(viol("bound-in-probe", format!("at most {} entries after a sequential store", case.limit), format!("{:?}", s2)));
+                    break;
+                }
+            }
+            if out.violation.is_none() && matches!(pol, Policy::Fifo | Policy::Lru) {
+                let (s2, _) = snapshot();
+                let stuck: Vec<&String> = s2.iter().filter(|k| stored.contains(*k)).collect();
+                if !stuck.is_empty() {
+                    out.violation = Some(viol("unevictable", "fresh stores flush every older entry".into(), format!("{:?}", stuck)));
+                }
+            }
+        }
+    }
+    vrt::clock::unfreeze();
+    out
+}
+
+pub fn run_core_c17(b: &[u8], t: Tier) -> CaseOut {
+    run_core(b, SF::C17, t)
+}
+pub fn run_core_c18(b: &[u8], t: Tier) -> CaseOut {
+    run_core(b, SF::C18, t)
+}
